@@ -3,10 +3,14 @@ CONSTANTS
   LegacyBreak = FALSE
   SwapIn = ""
   NoShadow = FALSE
+  ShallowSub = FALSE
+  IgnoreNs = FALSE
+  ModSharedPath = FALSE
+  MaxMod = 0
   NodeU <- NodeU4
   MaxAssoc = 3
   CreateNs = {1}
-  ClsU = {"AB", "ABS", "AT", "AL"}
+  ClsU = {"AB", "ABSS", "AT", "AL"}
   AcU <- AcSmall
   RcU <- RcSmall
   RlU <- RlSmall
